@@ -65,7 +65,7 @@ func c10ErrorConversion(p *Prog, r *Result) {
 				continue
 			}
 			st := f.StateAt(ret)
-			isErr := isConstInt(returnValue(ret, 0), errT)
+			isErr := isConstInt(returnValue(ret, 0), errT) || resultAlwaysConst(p, returnValue(ret, 0), errT, 0)
 			r.table(p, rule, fmt.Sprintf("return #%d of %s", i, n), p.instrPos(ret), isErr || st.Has("handler-ok"),
 				fmt.Sprintf("error type constant=%v under err==nil=%v", isErr, st.Has("handler-ok")))
 		}
@@ -133,4 +133,45 @@ func c10ContentLength(p *Prog, r *Result) {
 	} else {
 		r.fail("anchor fdo/http.Transport.Send not found")
 	}
+}
+
+// resultAlwaysConst: v is result i of a call to a module function every return
+// of which yields the constant c for that result (directly or through another
+// such function).
+func resultAlwaysConst(p *Prog, v ssa.Value, c int64, depth int) bool {
+	if depth > 3 {
+		return false
+	}
+	var call *ssa.Call
+	idx := 0
+	switch x := v.(type) {
+	case *ssa.Extract:
+		call, _ = x.Tuple.(*ssa.Call)
+		idx = x.Index
+	case *ssa.Call:
+		call = x
+	}
+	if call == nil {
+		return false
+	}
+	body := p.body(call.Common().StaticCallee())
+	if body == nil {
+		return false
+	}
+	n := 0
+	for _, b := range body.Blocks {
+		ret, ok := b.Instrs[len(b.Instrs)-1].(*ssa.Return)
+		if !ok || b == body.Recover {
+			continue
+		}
+		if idx >= len(ret.Results) {
+			return false
+		}
+		rv := returnValue(ret, idx)
+		if !isConstInt(rv, c) && !resultAlwaysConst(p, rv, c, depth+1) {
+			return false
+		}
+		n++
+	}
+	return n > 0
 }
